@@ -479,7 +479,7 @@ class FactBase:
                     if not standalone(f):
                         if called is None:
                             called = u.inlined_callees()
-                        if f.id in called:
+                        if f.id in called or f.is_lambda:
                             continue
                     f = inline(f)
                 yield f
